@@ -65,6 +65,15 @@ func repoRevision() string {
 	return rev
 }
 
+func tapeRounded(tape []interp.TapeEnt) bool {
+	for _, e := range tape {
+		if strings.Contains(e.N, "(rounded") || strings.Contains(e.N, "(inexact") {
+			return true
+		}
+	}
+	return false
+}
+
 func staticReachLabels(h *harnessInfo) []string { return staticLabels(h, "verifReach") }
 
 // staticSupportLabels: labels of verifSupport calls. Such a label states that an outcome HAS
@@ -322,6 +331,11 @@ func (r *report) evaluate(hs []*harnessInfo, stats []*interp.HarnessStats, rb *r
 				}
 				if res.Outcome == "ok" && eqStrs(res.Reached, w.Reaches) && eqObs(res.Observed, w.Observed) {
 					r.validated++
+					os.Remove(path)
+				} else if tapeRounded(w.Tape) {
+					// the solver's witness is a real number that is not a float64: the native run was fed
+					// the nearest double and is not the same input; such a witness validates nothing
+					r.notes = append(r.notes, fmt.Sprintf("NOTE: %s: a witness with a real-valued input that is not a float64 was not used for validation", h.fn.Name()))
 					os.Remove(path)
 				} else {
 					r.mismatches = append(r.mismatches, fmt.Sprintf("%s: engine predicted ok/%v/%v, native %s:%s %s /%v/%v (replay=%s)",
